@@ -215,6 +215,11 @@ func (this *Hnsw) Search(ctx context.Context, query math.Vector, k uint) (Search
 		return make(SearchResult, 0), nil
 	}
 
+	// There are never more results than items. Sizes below are derived from k.
+	if n := uint(this.Len()); k > n {
+		k = n
+	}
+
 	minDistance := this.space.Distance(query, entrypoint.vector)
 	for l := entrypoint.level; l > 0; l-- {
 		entrypoint, minDistance = this.greedyClosestNeighbor(query, entrypoint, minDistance, l)
